@@ -79,7 +79,7 @@ func (b *CombinationColexIterator) Next() bool {
 	}
 
 	if b.j >= b.k-1 {
-		if b.data[b.k-1] == b.n-1 {
+		if b.data[b.k-1] >= b.n-1 {
 			return false
 		}
 		b.data[b.k-1]++
@@ -102,7 +102,7 @@ func (b *CombinationColexIterator) Next() bool {
 		b.data[j] = j
 	}
 
-	if b.data[b.k-1] == b.n-1 {
+	if b.data[b.k-1] >= b.n-1 {
 		return false
 	}
 	b.data[b.k-1]++
